@@ -591,6 +591,7 @@ func runC19(c *Check) {
 	rulePassphraseHandedOverAsGiven(c, p, "C19-R16")
 	rulePersistedFieldsSurvive(c, p, "C19-R17", rootPath+"/pkg/signer")
 	ruleSignKeepsNoCallerBuffer(c, p, "C19-R18")
+	ruleImportExportSameKeyFile(c, p, "C19-R19")
 	c.MinInstances("C19-R17", 1)
 	c.MinInstances("C19-R4", 2)
 }
@@ -1250,4 +1251,86 @@ func ruleSignKeepsNoCallerBuffer(c *Check, p *Prog, rule string) {
 		c.Unk(rule, "anchor-count", "", "", "anchor lost: no Sign method in the signer packages")
 	}
 	c.MinInstances(rule, 2)
+}
+
+// ruleImportExportSameKeyFile (C19-R19): "export followed by import preserves the key" is a
+// statement about one key file. The two commands agree on where it is: the directory handed to
+// ImportPrivateKey and the one handed to ExportPrivateKey are the same expression over the
+// node's configuration (read through helpers of the package). A command that follows the
+// configured signer path while its sibling keeps to <home>/config meets the same file only under
+// the default configuration.
+func ruleImportExportSameKeyFile(c *Check, p *Prog, rule string) {
+	c.Doc(rule, "VP (sibling agreement): the key directory passed to ImportPrivateKey and the one passed to ExportPrivateKey by the key commands are the same expression over the configuration (helpers of the package looked through): what one command writes is what the other reads, under every configuration.")
+	render := func(fn *ssa.Function, v ssa.Value) []string {
+		t := TermOf(v, &Ctx{Fn: fn})
+		var out []string
+		var walk func(x *Term, d int)
+		walk = func(x *Term, d int) {
+			u := x.unconv()
+			if u.Op == "phi" {
+				for _, a := range u.Args {
+					walk(a, d)
+				}
+				return
+			}
+			if u.Op == "call" && d > 0 && !strings.HasPrefix(u.Name, "path/filepath.") {
+				if rs := p.ReturnTerms(u); len(rs) > 0 {
+					for _, r := range rs {
+						walk(r, d-1)
+					}
+					return
+				}
+			}
+			out = append(out, u.String())
+		}
+		walk(t, 3)
+		sort.Strings(out)
+		return out
+	}
+	sites := map[string][][]string{}
+	pos := map[string]string{}
+	fnOf := map[string]string{}
+	for _, fn := range p.Funcs {
+		pk := fnPkg(fn)
+		if pk == nil || !strings.HasPrefix(pk.Pkg.Path(), rootPath) || pk.Pkg.Path() == filePkg || fn.Blocks == nil {
+			continue
+		}
+		for _, b := range fn.Blocks {
+			for _, in := range b.Instrs {
+				call, ok := in.(*ssa.Call)
+				if !ok || call.Common().StaticCallee() == nil || len(call.Common().Args) == 0 {
+					continue
+				}
+				var kind string
+				switch fnName(call.Common().StaticCallee()) {
+				case filePkg + ".ImportPrivateKey":
+					kind = "import"
+				case filePkg + ".ExportPrivateKey":
+					kind = "export"
+				default:
+					continue
+				}
+				sites[kind] = append(sites[kind], render(fn, call.Common().Args[0]))
+				pos[kind], fnOf[kind] = p.InstrPos(in), fnName(fn)
+			}
+		}
+	}
+	if len(sites["import"]) == 0 || len(sites["export"]) == 0 {
+		c.Unk(rule, "keys import / export ⟂ same key file", "", "", fmt.Sprintf("anchor lost: %d import and %d export call sites", len(sites["import"]), len(sites["export"])))
+		return
+	}
+	canon := func(xs [][]string) string {
+		var all []string
+		for _, x := range xs {
+			all = append(all, strings.Join(x, " | "))
+		}
+		sort.Strings(all)
+		return strings.Join(all, " || ")
+	}
+	im, ex := canon(sites["import"]), canon(sites["export"])
+	if im == ex {
+		c.OK(rule, "keys import / export ⟂ same key file", fnOf["import"], pos["import"], "both commands hand the key-file functions "+trunc(im, 100), true)
+	} else {
+		c.Bad(rule, "keys import / export ⟂ same key file", fnOf["import"], pos["import"], "the import command writes the key under "+trunc(im, 120)+" while the export command reads it from "+trunc(ex, 120)+": with a signer path other than the default the two commands do not meet the same file — an imported key cannot be exported again (or an older key is exported instead)", nil)
+	}
 }
